@@ -566,7 +566,10 @@ class RTCRtpReceiver:
                             ssrc=ssrc,
                             fraction_lost=stream.fraction_lost,
                             packets_lost=stream.packets_lost,
-                            highest_sequence=stream.max_seq,
+                            # extended highest sequence number (RFC 3550 6.4.1):
+                            # wrap cycles in the high 16 bits
+                            highest_sequence=(stream.cycles + stream.max_seq)
+                            & 0xFFFFFFFF,
                             jitter=stream.jitter,
                             lsr=lsr,
                             dlsr=dlsr,
